@@ -16,6 +16,9 @@ pub struct TyFacts {
     /// `(size, align)`; `None` = uninhabited
     pub layout: Option<(usize, usize)>,
     pub is_reference_type: Option<bool>,
+    /// for an enum type: per variant the offset `Lowerer::location` computes
+    /// for its field 0 (`None`: no field / uninhabited field)
+    pub variant_offsets: Option<Vec<Option<usize>>>,
 }
 
 /// One script function as the MIR sees it.
@@ -51,7 +54,7 @@ pub fn signatures<C: OptCtx>(
     rt: &Runtime<C>,
 ) -> Result<Dump, RotoReport> {
     let checked = tree.parse()?.typecheck(rt)?;
-    let mir = checked.lower_to_mir();
+    let mut mir = checked.lower_to_mir();
     let mir_sigs = mir.verif_c05_mir_sigs();
     let lir = mir.lower_to_lir();
     let (lir_sigs, runtime_calls) = lir.verif_c05_ir_sigs();
